@@ -610,7 +610,8 @@ Definition tcp_process_ack_check (cx : ctx) (s : socket) (ip : ip_repr) (r : tcp
 Definition tcp_window_start (s : socket) : Z := seq_add (s_remote_seq_no s) (rb_len (s_rx_buffer s)).
 Definition tcp_window_end (s : socket) : Z :=
   match s_remote_last_ack s with
-  | Some last_ack => seq_add last_ack (shl (s_remote_last_win s) (s_remote_win_shift s))
+  | Some last_ack =>
+      seq_max (seq_add last_ack (shl (s_remote_last_win s) (s_remote_win_shift s))) (tcp_window_start s)
   | None => tcp_window_start s
   end.
 
@@ -725,6 +726,8 @@ Definition tcp_process_transition (cx : ctx) (s : socket) (ip : ip_repr) (r : tc
       let s := upd_local_seq_no s (cx_isn cx) in
       let s := upd_remote_seq_no s (seq_add (r_seq_number r) 1) in
       let s := upd_remote_last_seq s (s_local_seq_no s) in
+      let s := upd_remote_last_ack s None in
+      let s := upd_remote_last_win s 0 in
       let s := upd_remote_has_sack s (r_sack_permitted r) in
       let s := upd_remote_win_scale s (r_window_scale r) in
       let s := if is_some (s_remote_win_scale s) then s else upd_remote_win_shift s 0 in
@@ -763,7 +766,7 @@ Definition tcp_process_transition (cx : ctx) (s : socket) (ip : ip_repr) (r : tc
       if ack_of_fin then
         let s := tcp_set_state s Closed in
         Ok (Cont 159 (upd_tuple s None))
-      else if ack_len =? 0 then
+      else if (ack_len =? 0) && rb_is_empty (s_tx_buffer s) then
         let '(s', p) := tcp_challenge_ack_reply cx s ip r in Ok (Ret 160 s' p)
       else Ok (Cont 161 s)
   | _, _ => Ok (Ret 162 s None)
